@@ -232,6 +232,8 @@ func (s *c06state) distProbes() []*c06ev {
 				{[]c06st{{d, "A", one}, {"A", "B", one}}, []int{1, 3}},               // witnessed sender second
 				{[]c06st{{"A", d, one}, {d, "B", one}}, []int{1, 3}},                 // credited, then debited
 				{[]c06st{{d, "A", zero}, {d, "B", one}}, []int{0, 3}},                // a skipped zero-valued state first
+				{[]c06st{{d, "A", one}, {d, "B", zero}}, []int{0, 3}},                // a skipped zero-valued state last
+				{[]c06st{{"A", d, one}, {d, "A", zero}, {"A", "B", one}}, []int{1}},  // a skipped zero-valued state in the middle
 				{[]c06st{{"A", "B", one}, {"A", "C", one}, {d, "A", one}}, []int{1}}, // after a run of a witnessed sender
 				{[]c06st{{d, "A", bi}, {d, "B", one}}, []int{0}},                     // everything, then one more
 			}
@@ -293,7 +295,7 @@ func TestVerif_C06_distinguished(t *testing.T) {
 	r := vh.Start(t, "C06", "distinguished")
 	defer r.Finish()
 	c06initDist()
-	r.Rule("account alphabet extended by the distinguished addresses {all-zero address, ONT / ONG / governance contract, an address differing from account A in the last byte}; root states = genesis + an authorised, oracle-judged funding history (A sends 3.5 units of ONT and of ONG to each of them, grants each an allowance of 2, the three contracts grant A an allowance of 2 as calling contract); states = distinct (ONT+ONG storage dump, block-time level) reached from a funded root by BFS over time ticks and a further ONT credit of 1 to every distinguished address; in every state every probe of the distinguished alphabet is executed and judged by the C06 oracle: 2 tokens x 5 distinguished addresses x {transfer, transferV2 to A and to itself with amounts 0,1,1.5,bal,bal+1, over-supply; 7 two/three-state batches mixing the distinguished sender with A in every order; approve/approveV2 as owner; transferFrom/transferFromV2 as owner and as spender with amounts 0,1,allowance,allowance+1} x witness sets {0,A,B,AB} x calling contract {none, user contract, another native contract, itself if a contract, the ONT contract on its unbinding path}; classes = distinguished role x method x statement verdict x outcome")
+	r.Rule("account alphabet extended by the distinguished addresses {all-zero address, ONT / ONG / governance contract, an address differing from account A in the last byte}; root states = genesis + an authorised, oracle-judged funding history (A sends 3.5 units of ONT and of ONG to each of them, grants each an allowance of 2, the three contracts grant A an allowance of 2 as calling contract); states = distinct (ONT+ONG storage dump, block-time level) reached from a funded root by BFS over time ticks and a further ONT credit of 1 to every distinguished address; in every state every probe of the distinguished alphabet is executed and judged by the C06 oracle: 2 tokens x 5 distinguished addresses x {transfer, transferV2 to A and to itself with amounts 0,1,1.5,bal,bal+1, over-supply; 9 two/three-state batches mixing the distinguished sender with A in every order, with a zero-valued state first / in the middle / last; approve/approveV2 as owner; transferFrom/transferFromV2 as owner and as spender with amounts 0,1,allowance,allowance+1} x witness sets {0,A,B,AB} x calling contract {none, user contract, another native contract, itself if a contract, the ONT contract on its unbinding path}; classes = distinguished role x method x statement verdict x outcome")
 	var rc c06replay
 	isReplay := r.ReplayCase(&rc) && (rc.Root != "" || rc.Config != "")
 	if isReplay && !strings.HasSuffix(rc.Root, c06funded) {
